@@ -124,6 +124,11 @@ func (b *byWithoutFilterCol) String(ctx *sql.Ctx, opts ...int) (string, error) {
 		}
 	}
 
+	if len(b.labels) == 0 && b.by {
+		// by (): no label is kept (`k IN ()` is not a valid expression)
+		return fmt.Sprintf("mapFilter((k,v) -> 0, %s)", str), nil
+	}
+
 	fn := "IN"
 	if !b.by {
 		fn = "NOT IN"
